@@ -249,14 +249,26 @@ def _append_root_metadata(
             # overwrite it
             if appendover:
                 del(mdbundle_group[key])
-                root._metadata[key].to_h5(mdbundle_group)
+                _write_root_metadata_entry(root._metadata[key],mdbundle_group)
             # or skip it
             else:
                 pass
         # otherwise, write it
         else:
-            root._metadata[key].to_h5(mdbundle_group)
+            _write_root_metadata_entry(root._metadata[key],mdbundle_group)
     return
+
+def _write_root_metadata_entry(metadata,mdbundle_group):
+    """ Writes one Metadata instance into a root's metadatabundle. If the write
+    fails, the half-written entry is removed again - left behind, it would make
+    every later read of this tree raise.
+    """
+    try:
+        metadata.to_h5(mdbundle_group)
+    except Exception:
+        if metadata.name in mdbundle_group:
+            del(mdbundle_group[metadata.name])
+        raise
 
 def _validate_treepath(
     rootgroup,
